@@ -101,16 +101,18 @@ Record cfg := mk_cfg {
   c_omap_sorted     : bool;  (* SortedMap.ensureOrder sorts the collected keys *)
   c_tally_via_omap  : bool;  (* tallyVotesAndUpdatePrices has no map range of its own (goes through omap) *)
   c_remove_via_omap : bool;  (* removeInvalidVotes has no map range of its own *)
-  c_range_blocking  : bool   (* every goroutine that feeds a channel (omap.SortedMap.Range) is the only goroutine of its function,
+  c_range_blocking  : bool;  (* every goroutine that feeds a channel (omap.SortedMap.Range) is the only goroutine of its function,
                                 offers every key with a plain blocking send — no select, no timer, no deadline — and closes
                                 the channel when it is done *)
+  c_devgas_slice_order : bool  (* the dev-gas ante (settleFeePayments) pays the withdrawers in the order of the tx's messages
+                                  (a slice): no order-sensitive range over a Go map in x/devgas/v1/ante *)
 }.
 
 Definition cfg_ok (c : cfg) : bool :=
   c_sudo_sorted c && c_dirties_sorted c && c_storage_sorted c && c_omap_sorted c &&
-  c_tally_via_omap c && c_remove_via_omap c && c_range_blocking c.
+  c_tally_via_omap c && c_remove_via_omap c && c_range_blocking c && c_devgas_slice_order c.
 
-Definition cfg_all : cfg := mk_cfg true true true true true true true.
+Definition cfg_all : cfg := mk_cfg true true true true true true true true.
 
 (** the keys in the order the loop body sees them: the code first collects them in map order
     ([ord ks]) and, when the site sorts, sorts the collected slice *)
@@ -219,6 +221,21 @@ Definition commit_obj (c : cfg) (π : sched) (path : list Z) (st : evm_state) (a
 Definition commit (c : cfg) (π : sched) (path : list Z) (dirties : list (Z * sobj)) (st : evm_state) : evm_state :=
   fold_left (fun s a => match assoc a dirties with Some o => commit_obj c π path s a o | None => s end)
     (order_keys (c_dirties_sorted c) (π (0 :: path)) (zset_of (map fst dirties))) st.
+
+(* ------------------------------------------------------------------ x/devgas ante: settleFeePayments *)
+
+(** One tx executing several contracts registered for fee share: every withdrawer is paid by a bank send, and a withdrawer
+    that never held an account gets one — with the next x/auth account NUMBER.  [ws] = the withdrawers in message order.
+    (Amounts are sums, they commute; the account numbers are what makes the order observable.) *)
+Definition ensure_account (addr : Z) (st : evm_state) : evm_state :=
+  match kv_get addr (ev_accts st) with
+  | Some _ => st
+  | None => mk_evm (kv_set addr (ev_next st, 0) (ev_accts st)) (ev_next st + 1) (ev_slots st)
+  end.
+
+Definition devgas_payout (c : cfg) (π : sched) (path : list Z) (ws : list Z) (st : evm_state) : evm_state :=
+  fold_left (fun s w => ensure_account w s)
+    (if c_devgas_slice_order c then ws else π (12 :: path) (zset_of ws)) st.
 
 (* ------------------------------------------------------------------ x/oracle: EndBlock folds *)
 
@@ -371,7 +388,8 @@ Inductive msg :=
 | MEvmTx (dirties : list (Z * sobj))
 | MOracleEndBlock (vals : list (Z * Z)) (pvs : list (Z * ballot)) (npairs pool : Z)
 | MAddPrecompiles (addrs : list Z)
-| MPrecompileCall (sel : Z).
+| MPrecompileCall (sel : Z)
+| MDevGasPayout (ws : list Z).
 
 Record state := mk_state {
   st_sudo        : list Z;      (* Sudoers.Contracts as stored (byte order matters) *)
@@ -412,6 +430,10 @@ Definition step (c : cfg) (abi : list (Z * Z)) (π : sched) (δ : clock) (path :
        om_keys om)
   | MPrecompileCall sel =>
       (s, match method_by_id (π (11 :: path)) abi sel with Some n => [n] | None => [-1] end)
+  | MDevGasPayout ws =>
+      let e := devgas_payout c π path ws (st_evm s) in
+      (mk_state (st_sudo s) e (st_prices s) (st_miss s) (st_outstanding s) (st_distributed s) (st_precompiles s),
+       [ev_next e])
   end.
 
 Fixpoint run_from (c : cfg) (abi : list (Z * Z)) (π : sched) (δ : clock) (i : Z) (s : state) (h : list msg) : state * list (list Z) :=
